@@ -94,7 +94,7 @@ def run(ctx):
     R.rule("C14-R2", "operator table arm agrees with its tag; tables exhaustive over the scalar tags", floor=300)
     R.rule("C14-R3", "shift result type comes from the left operand", floor=4)
     R.rule("C14-R4", "32-bit narrowing of a suffix-less integer literal is dominated by a magnitude test", floor=2)
-    R.rule("C14-R5", "integer division/modulo guarded against a zero divisor", floor=4)
+    R.rule("C14-R5", "integer division/modulo guarded against a zero divisor and against the overflowing quotient min()/-1", floor=8)
 
     short_circuit(prog, R, "C14-R1")
 
@@ -159,6 +159,31 @@ def run(ctx):
             fs_ = c.facts_at(kids(sw)[0])
             ok = any(pol and pnames[1] in k and ("isFloat" in k or "!= 0" in k or "to()" in k or "to" in k) for (k, pol) in fs_)
             R.ob("C14-R5", ok, f.q, "guard:zero divisor", f.site(sw), "a guard on the divisor dominates the division" if ok else "integer division by a zero constant raises SIGFPE inside the translator")
+            # the other trapping case: most negative value / -1 in the 32- and 64-bit signed arms
+            def covers(node, depth=0):
+                """set of widths {int, long} for which `node` (or a helper it calls) tests  x == numeric_limits<T>::min() && y == -1"""
+                got = set()
+                for x in walk(node):
+                    if x["k"] == "BinaryOperator" and x.get("op") == "&&":
+                        l, r = [strip(y) for y in kids(x)]
+                        for a_, b_ in ((l, r), (r, l)):
+                            mins = [callee(y) for y in walk(a_) if is_call(y) and callee(y).startswith("std::numeric_limits<") and callee(y).endswith("::min")]
+                            neg1 = any(y["k"] == "UnaryOperator" and y.get("op") == "-" and literal(kids(y)[0]) == 1 for y in walk(b_)) and b_.get("op") == "=="
+                            if mins and a_.get("op") == "==" and neg1:
+                                got.add(mins[0].split("<")[1].split(">")[0])
+                    if is_call(x) and depth < 2 and callee(x).startswith("occa::") and not callee(x).startswith(P + "to"):
+                        for g in prog.fns(callee(x)):
+                            if g.d.get("body") is not None:
+                                got |= covers(g.d["body"], depth + 1)
+                return got
+            widths = set()
+            for (k, pol) in fs_:
+                if not pol:
+                    widths |= covers(c.fact_node((k, pol))) if (k, pol) in c._factnode else set()
+            ok5 = {"int", "long"} <= widths
+            R.ob("C14-R5", ok5, f.q, "guard:most negative value / -1", f.site(sw),
+                 "a guard excluding min()/-1 for the 32- and 64-bit signed arms dominates the division" if ok5 else
+                 "INT_MIN / -1 (or %% -1) is not excluded before the division (widths guarded: %s): the hardware division traps, `#if (-2147483647-1) / -1` kills the translator with SIGFPE" % sorted(widths))
 
     # ---- R2 (cont.): the conversion every arm relies on, primitive::to<T>() ---------------------------------------
     tos = [f for f in prog.fns(P + "to", tmpl="pattern")]
